@@ -687,7 +687,7 @@ fn python_stage(sink: &mut Sink, args: &Args, rng: &mut Rng, replay: Option<Valu
     let op = args.work.join("c10_py_out.json");
     std::fs::write(&sp, serde_json::to_vec(&sessions).unwrap()).unwrap();
     let _ = std::fs::remove_file(&op);
-    let st = std::process::Command::new("python3").arg(format!("{}/pyharness/run_py.py", root)).arg(&cfg_path).arg(&res).arg(&sp).arg(&op).env("PYTHONPATH", &pypkg).output();
+    let st = std::process::Command::new("timeout").arg("-k").arg("10").arg("900").arg("python3").arg(format!("{}/pyharness/run_py.py", root)).arg(&cfg_path).arg(&res).arg(&sp).arg(&op).env("PYTHONPATH", &pypkg).output();
     let py: Option<Value> = std::fs::read_to_string(&op).ok().and_then(|s| serde_json::from_str(&s).ok());
     let py = match (&st, py) {
         (Ok(o), Some(py)) if o.status.success() => py,
